@@ -2,7 +2,7 @@
    Only statements; every proof is `exact <lemma>`; examples by computation. *)
 From Coq Require Import List ZArith QArith Qcanon Bool Arith Sorted.
 From Dimod Require Import Base.Util Model.Poly Model.Comb Model.Penalty Model.CqmBqm Model.ChkC16
-  Proofs.PolyFacts Proofs.CombFacts Proofs.PenaltyEq Proofs.PenaltySlack Proofs.CqmBqmFacts Proofs.ChkC16Facts Proofs.PenaltyLog10 Model.DqmAdj Proofs.DqmAdjFacts.
+  Proofs.PolyFacts Proofs.CombFacts Proofs.PenaltyEq Proofs.PenaltySlack Proofs.CqmBqmFacts Proofs.ChkC16Facts Proofs.PenaltyLog10 Model.DqmAdj Proofs.DqmAdjFacts Proofs.PenaltyGen Proofs.PenaltyDqmCz Proofs.QmToBqmFacts.
 Import ListNotations.
 
 (* ================================================================== *)
@@ -133,6 +133,25 @@ Theorem C16_unbalanced_adds_exactly :
 Proof. exact add_unbalanced_exact. Qed.
 Print Assumptions C16_unbalanced_adds_exactly.
 
+(* the decision of add_linear_inequality_constraint written ONLY with the rules generated from the source
+   (Gen/Gen_Penalty.v: bounds, always-feasible test, refusal, equality shortcut, 2**j coefficients, guarded
+   remainder, cross_zero bit) is the plan the theorems above are about *)
+Theorem C16_generated_plan_is_plan :
+  forall (cz : bool) (a : list Z) (const lb ub : Z),
+    plan_inequality_g cz a const lb ub = plan_inequality_cz cz a const lb ub.
+Proof. exact plan_inequality_g_eq. Qed.
+Print Assumptions C16_generated_plan_is_plan.
+
+Theorem C16_generated_plan_plain :
+  forall (a : list Z) (const lb ub : Z), plan_inequality_g false a const lb ub = plan_inequality a const lb ub.
+Proof. exact plan_inequality_g_plain. Qed.
+Print Assumptions C16_generated_plan_plain.
+
+Theorem C16_generated_slack_coeffs :
+  forall U : Z, (0 < U)%Z -> slack_coeffs_g U = slack_coeffs U.
+Proof. exact slack_coeffs_g_eq. Qed.
+Print Assumptions C16_generated_slack_coeffs.
+
 (* ================================================================== *)
 (* (3) DQM slack variants *)
 
@@ -186,6 +205,38 @@ Theorem C16_dqm_inequality_gap :
     end.
 Proof. exact dqm_inequality_gap. Qed.
 Print Assumptions C16_dqm_inequality_gap.
+
+(* DQM cross_zero=True (zero_constraint = lb_c > 0 or ub_c < 0): what the objective then admits.
+   log2: one more two-case variable worth ub_c -> additionally -U <= sum <= 0 *)
+Theorem C16_dqm_cross_zero_log2 :
+  forall U A ubc : Z, (0 < U)%Z ->
+    let vals := dqm_slack_values_cz Log2 U ubc true in
+    let allowed := ((ubc - U <= A <= ubc) \/ (- U <= A <= 0))%Z in
+    (allowed -> exists sl, In sl (choice_sums vals) /\ pen_val A sl ubc = 0%Z) /\
+    (~ allowed -> forall sl, In sl (choice_sums vals) -> (1 <= pen_val A sl ubc)%Z).
+Proof. exact dqm_cz_log2_gap. Qed.
+Print Assumptions C16_dqm_cross_zero_log2.
+
+(* linear: one more case worth ub_c -> additionally exactly sum = 0 *)
+Theorem C16_dqm_cross_zero_linear :
+  forall U A ubc : Z, (0 < U)%Z ->
+    let vals := dqm_slack_values_cz Linear U ubc true in
+    let allowed := ((ubc - U <= A <= ubc) \/ A = 0)%Z in
+    (allowed -> exists sl, In sl (choice_sums vals) /\ pen_val A sl ubc = 0%Z) /\
+    (~ allowed -> forall sl, In sl (choice_sums vals) -> (1 <= pen_val A sl ubc)%Z).
+Proof. exact dqm_cz_linear_gap. Qed.
+Print Assumptions C16_dqm_cross_zero_linear.
+
+(* log10: the last digit variable gets one more case worth ub_c -> additionally -(10^(digits-1) - 1) <= sum <= 0 *)
+Theorem C16_dqm_cross_zero_log10 :
+  forall U A ubc : Z, (1 <= U)%Z ->
+    let p := (10 ^ Z.of_nat (pred (ndigits (Z.to_nat U) U)))%Z in
+    let vals := dqm_slack_values_cz Log10 U ubc true in
+    let allowed := ((ubc - log10_top U <= A <= ubc) \/ (- (p - 1) <= A <= 0))%Z in
+    (allowed -> exists sl, In sl (choice_sums vals) /\ pen_val A sl ubc = 0%Z) /\
+    (~ allowed -> forall sl, In sl (choice_sums vals) -> (1 <= pen_val A sl ubc)%Z).
+Proof. exact dqm_cz_log10_gap. Qed.
+Print Assumptions C16_dqm_cross_zero_log10.
 
 (* log10: a violating assignment whose penalty vanishes (terms [-4; 15], 0 <= sum <= 15, slack 19) *)
 Theorem C16_dqm_log10_gap_refuted :
@@ -307,6 +358,48 @@ Theorem C16_inverter_in_domain :
 Proof. exact invert_var_in_domain. Qed.
 Print Assumptions C16_inverter_in_domain.
 
+(* code-shaped _qm_to_bqm (spin_to_binary first, then the loop over variables and the four cases of the loop
+   over interactions): on every 0/1 sample the BQM is the QM at the decoded sample ... *)
+Theorem C16_qm_to_bqm_code_energy :
+  forall (spins : list label) (ints : int_table) (p : poly) (s : sample),
+    respects (cvt BINARY) s -> NoDup spins ->
+    energy (qm_to_bqm_code spins ints p) s = energy p (decode spins ints s).
+Proof. exact qm_to_bqm_code_energy. Qed.
+Print Assumptions C16_qm_to_bqm_code_energy.
+
+(* ... and agrees with the functional model (encode_poly over the same tables) *)
+Theorem C16_qm_to_bqm_code_agrees :
+  forall (spins : list label) (ints : int_table) (p : poly) (s : sample),
+    respects (cvt BINARY) s -> NoDup spins ->
+    (forall w, existsb (Nat.eqb w) spins = true -> find_int ints w = None) ->
+    energy (qm_to_bqm_code spins ints p) s = energy (encode_poly (enc_table spins ints) p) s.
+Proof. exact qm_to_bqm_code_agrees. Qed.
+Print Assumptions C16_qm_to_bqm_code_agrees.
+
+(* CQMToBQMInverter.__call__: every entry it returns is the decoded value *)
+Theorem C16_inverter_call_entries :
+  forall (binary : list (label * vartype)) (ints : int_table) (s : sample) (v : label) (x : Qc),
+    In (v, x) (inverter_call binary ints s) ->
+    (exists vt, In (v, vt) binary /\ x = match vt with SPIN => (two * s v - 1)%Qc | _ => s v end) \/
+    (exists bits, In (v, bits) ints /\ x = lin_energy bits s).
+Proof. exact inverter_call_entries. Qed.
+Print Assumptions C16_inverter_call_entries.
+
+(* the inverter maps BQM samples back: a sample whose bits of v are an encoding of x (here the greedy one) gives x *)
+Theorem C16_inverter_recovers_integer :
+  forall (ub x : Z) (bits : list lterm) (s : sample),
+    (2 <= ub)%Z -> (0 <= x <= ub)%Z -> binary01 s ->
+    map snd bits = map zq (binary_encoding_coeffs ub) ->
+    bits_of s (map fst bits) = slack_bits ub x ->
+    fold_left (fun a t => (a + s (fst t) * snd t)%Qc) bits 0%Qc = zq x.
+Proof. exact inverter_recovers_integer. Qed.
+Print Assumptions C16_inverter_recovers_integer.
+
+Theorem C16_inverter_recovers_spin :
+  forall (x : Qc) (s : sample) (v : label), s v = ((x + 1) * half)%Qc -> (two * s v - 1)%Qc = x.
+Proof. exact inverter_recovers_spin. Qed.
+Print Assumptions C16_inverter_recovers_spin.
+
 (* the integer penalties of the substituted constraints (units of the multiplier) *)
 Theorem C16_converted_constraints_penalty_gap :
   forall (ks : list zcon) (x : list bool),
@@ -373,7 +466,7 @@ Example C16_ex_log10_15 : dqm_log10_values 15 = [[0; 1; 2; 3; 4; 5; 6; 7; 8; 9];
 Proof. vm_compute; reflexivity. Qed.
 Example C16_ex_log10_top : map log10_top [9; 15; 19; 99; 100; 299; 300]%Z = [9; 19; 19; 99; 199; 299; 399]%Z.
 Proof. vm_compute; reflexivity. Qed.
-Example C16_ex_merge : merge_adj 2 [1; 2; 3] [0; 3; 5] = [0; 1; 3; 5].
+Example C16_ex_merge : merge_adj 2%nat [1; 2; 3]%nat [0; 3; 5]%nat = [0; 1; 3; 5]%nat.
 Proof. vm_compute; reflexivity. Qed.
 Example C16_ex_log10_99 : length (choice_sums (dqm_log10_values 99)) = 100%nat.
 Proof. vm_compute; reflexivity. Qed.
